@@ -506,6 +506,56 @@ def gen_history(world, rng, big):
             kw.insert(rng.randint(0, 1), (5, rng.randint(0, 9)))
         return ("OBuild", i, [], kw)
 
+    def full_kwargs():
+        """every keyword some harness build override knows, all given, in random order"""
+        kw = [(0, rng.choice(ACLS)), (5, rng.randint(0, 9)), (6, rng.randint(0, 9))]
+        rng.shuffle(kw)
+        return kw
+
+    def mirror_script():
+        """Directed: the state kept by _mirror_build_function.  A combination of same-signature detectors
+        (its build_antennas attribute becomes a mirror of theirs), build calls in between, then += of a
+        detector with a different build signature (all parameters defaulted), then nesting of that
+        combination in a non-matching one and building with every keyword; finally growing it again."""
+        same = rng.choice([[2, 7], [2, 2], [7, 2], [3, 3]])
+        other = 3 if same[0] != 3 else rng.choice([2, 7])
+        idx = []
+        for c in same + [other, rng.choice([0, 3, 5, 2, other])]:
+            emit(("ONewBase", g.next_oid, c, g.fresh_pos(rng.choice([1, 2]), allow_above=False)))
+            g.next_oid += 1
+            idx.append(len(env) - 1)
+            if rng.random() < 0.4:
+                emit(valid_build(idx[-1]))
+        a1, a2, b, x = idx
+        emit(("OAdd", a1, a2))
+        comb = len(env) - 1
+        if rng.random() < 0.6:
+            emit(("OBuild", comb, [], full_kwargs() if rng.random() < 0.5 else [(0, rng.choice(ACLS))]))
+        emit(("OIadd", comb, b))
+        if rng.random() < 0.4:
+            emit(("OBuild", comb, [], full_kwargs()))
+        r = rng.random()
+        if r < 0.5:
+            emit(("OAdd", x, comb))                       # Detector.__add__: nests the combination
+        elif r < 0.8:
+            emit(("ONewComp", g.next_oid, rng.choice(comp_classes), [x, comb]))
+            g.next_oid += 1
+        else:
+            emit(("ONewComp", g.next_oid, 1, [comb]))
+            g.next_oid += 1
+            emit(("OAdd", x, len(env) - 1))
+        outer = len(env) - 1
+        emit(("OBuild", outer, [], full_kwargs()))
+        emit(("OObs", outer, [0, -1]))
+        if rng.random() < 0.5:
+            # grow the inner combination again (same-signature detector) and rebuild through the outer one
+            emit(("ONewBase", g.next_oid, same[0], g.fresh_pos(1, allow_above=False)))
+            g.next_oid += 1
+            emit(("OIadd", comb, len(env) - 1))
+            emit(("OBuild", outer, [], full_kwargs()))
+
+    if rng.random() < 0.3:
+        mirror_script()
     for _ in range(nbase):
         emit(("ONewBase", g.next_oid, rng.choice(base_classes), g.fresh_pos(rng.choice([0, 1, 2, 2, 3, 4]))))
         g.next_oid += 1
